@@ -178,7 +178,10 @@ GLOBAL_NAMES["Lock"] = Py(("class", "Lock"))
 @model
 def list_append(ex, path, l, ca, node):
     n = path.sel("list.len", l.e)
-    path.store("list.arr", l.e, z3.Store(path.sel("list.arr", l.e), n, ref_of(ca.pos[0])))
+    item = ca.pos[0]
+    if isinstance(item, Exc):
+        item = path.alloc("Val", "excobj")  # an exception object stored as a value
+    path.store("list.arr", l.e, z3.Store(path.sel("list.arr", l.e), n, ref_of(item)))
     path.store("list.len", l.e, n + 1)
     return [(path, NoneV())]
 
@@ -617,7 +620,14 @@ def _gather(ex, path, ca, node):
     On an exception the first one propagates (the others are left running: not modelled)."""
     USED_MODELS.add("asyncio.gather")
     star = ca.star
-    if not (isinstance(star, Py) and star.obj[0] == "genexp") or ca.pos or ca.kw:
+    swallow = False
+    kw = dict(ca.kw)
+    if "return_exceptions" in kw:
+        re_ = kw.pop("return_exceptions")
+        if not isinstance(re_, B) or not (z3.is_true(z3.simplify(re_.e)) or z3.is_false(z3.simplify(re_.e))):
+            raise Unsupported("gather(return_exceptions=<symbolic>)")
+        swallow = z3.is_true(z3.simplify(re_.e))
+    if not (isinstance(star, Py) and star.obj[0] == "genexp") or ca.pos or kw:
         raise Unsupported("asyncio.gather of anything but one starred generator expression")
     gnode, env = star.obj[1], star.obj[2]
     ident = next(ex.run.coro_counter)
@@ -628,7 +638,8 @@ def _gather(ex, path, ca, node):
         ast.copy_location(lc, gnode)
         ast.fix_missing_locations(lc)
         ex.loop_ids[id(lc)] = ex.loop_ids[id(gnode)]
-        return ex.comprehension(lc, p, "list", env=env)
+        # return_exceptions=True: an exception raised by an awaitable becomes its result
+        return ex.comprehension(lc, p, "list", env=env, swallow=swallow)
 
     return [(path, Coro(thunk, ident))]
 
@@ -689,3 +700,16 @@ def b_super(ex, path, ca, node):
     if not m.bases:
         raise Unsupported(f"super() in {me.cls}: no modelled base")
     return [(path, O(me.e, m.bases[0]))]
+
+
+@builtin("run_async_from_sync")
+def b_run_async_from_sync(ex, path, ca, node):
+    """statemachine.utils.run_async_from_sync — ASSUMED CONTRACT (asyncio): the coroutine is run to
+    completion exactly once: by the awaiting caller when a loop is running (it is returned as
+    is), otherwise here on the thread's cached loop.  Both are represented by handing the
+    coroutine on; contracts of coroutine-returning functions are checked on the awaited result."""
+    USED_MODELS.add("run_async_from_sync")
+    v = ca.pos[0]
+    if isinstance(v, Coro):
+        return [(path, v)]
+    return ex.await_value(path, v, node)
